@@ -570,7 +570,7 @@ class Calendar(Dict, _calendar):
             return t
         elif adj.startswith('m'): #modified following
             t = self.adjust(date, 'f')
-            if t.month!=date.month:
+            if (t.year, t.month) != (date.year, date.month):
                 return self.adjust(date, 'p')
             else:
                 return t
